@@ -11,12 +11,52 @@ RUN_DIR = os.path.join(VERIF, 'build', 'run')
 BASE_DEFS = ['-DUSE_LIBFFI', '-DUSE_LIBZ', '-DUSE_NCURSES', '-DUSE_SQLITE']
 
 
+_OVERLAY = None
+
+
+class Overlay:
+    """single-file mutants / controls: private copies of edited files placed ahead of /repo's include
+    directories (headers) or substituted for the unit (.cpp).  Nothing under /repo is touched."""
+
+    def __init__(self, edits):
+        self.edits = edits            # {repo-relative path: new content}
+        self.dir = os.path.join(VERIF, 'build', 'overlay', '%d_%d' % (os.getpid(), id(self) & 0xffff))
+
+    def __enter__(self):
+        global _OVERLAY
+        for rel, content in self.edits.items():
+            dst = os.path.join(self.dir, rel)
+            os.makedirs(os.path.dirname(dst), exist_ok=True)
+            with open(dst, 'w') as fh:
+                fh.write(content)
+        _OVERLAY = self
+        return self
+
+    def __exit__(self, *a):
+        global _OVERLAY
+        _OVERLAY = None
+        shutil.rmtree(self.dir, ignore_errors=True)
+
+    def map(self, src):
+        rel = os.path.relpath(src, REPO) if src.startswith(REPO + '/') else src
+        if rel in self.edits:
+            return os.path.join(self.dir, rel), ['-iquote', os.path.dirname(src)]
+        return src, []
+
+
+def read_repo(rel):
+    with open(os.path.join(REPO, rel)) as fh:
+        return fh.read()
+
+
 def compile_flags(extra_includes=(), openmp=True):
     """The one flag set every unit of the build uses (verified against ninja -t compdb), replayed
     through clang.  -fgnuc-version=10.2.0: take the __GNUC__>=7 branches g++ 12 takes."""
     fl = list(BASE_DEFS)
     for inc in extra_includes:
         fl.append('-I' + inc)
+    if _OVERLAY is not None:
+        fl += ['-I%s/src/include' % _OVERLAY.dir, '-I%s/src' % _OVERLAY.dir]
     fl += ['-I%s/src/include' % REPO, '-I%s/src' % REPO, '-I%s/_build/src' % REPO,
            '-std=gnu++17', '-UNDEBUG', '-fgnuc-version=10.2.0', '-fwrapv', '-w']
     if openmp:
@@ -92,6 +132,9 @@ def extract(jobs, workers=16):
             src = os.path.join(REPO, src)
         if not os.path.exists(src):
             raise Broken('unit vanished: %s' % src)
+        if _OVERLAY is not None:
+            src, extra = _OVERLAY.map(src)
+            fl = extra + fl
         full.append((src, fre, nre, fl, os.path.join(d, 'u%d.json' % n)))
     units = []
     try:
